@@ -307,7 +307,24 @@ def run(rng, tier, res=None, want=("prim", "fit", "semi")):
                 viol("C07", [f"two fresh SupervisedOPF({metric}) fits on equal data differ after an unrelated fit in between"],
                      {"stream": "fit", "metric": metric, "X": X.tolist(), "Y": Y.tolist()})
             res.hit("c07_refit_after_other_fit")
-        rel = [nd[i].relevant for i in range(n)]
+        rel = [nd[i].relevant for i in range(n)]      # relevance marks of the batch prediction above (later calls add their own)
+        if feature_mode and case % 6 == 0 and X.dtype == np.float64:
+            # whatever the caller's matrices contain (a missing value, an overflowed reading), fit / predict leave them as they are
+            Xn = X.copy(); Qn = (Q.copy() if nq else np.zeros((1, dd)))
+            Xn[rng.randrange(nLab)][rng.randrange(dd)] = rng.choice([float("nan"), float("inf"), float("-inf")])
+            Qn[0][rng.randrange(dd)] = rng.choice([float("nan"), float("inf")])
+            xb_, qb_ = Xn.tobytes(), Qn.tobytes()
+            try:
+                on = SupervisedOPF(distance=metric); on.fit(Xn, Y.copy())
+            except Exception:
+                pass
+            try:
+                o.predict(Qn)
+            except Exception:
+                pass
+            if Xn.tobytes() != xb_ or Qn.tobytes() != qb_:
+                viol("C07", [f"fit/predict with metric {metric} rewrote non-finite entries of the caller's arrays"], {"stream": "fit", "metric": metric})
+            res.hit("c07_nonfinite_entries_untouched")
         if feature_mode and (X.tobytes() != Xb or XU.tobytes() != XUb or Q.tobytes() != Qb):
             viol("C07", [f"fit/predict with metric {metric} modified the caller's feature arrays"], {"stream": "fit", "metric": metric})
         # C09: the same samples alone, permuted, duplicated, after earlier calls
@@ -322,6 +339,29 @@ def run(rng, tier, res=None, want=("prim", "fit", "semi")):
             for a, t in enumerate(perm):
                 if again[a] != preds[t]:
                     msgs9.append(f"sample {t} predicted {preds[t]} at position {t} but {again[a]} at position {a} of a permuted batch")
+            if not feature_mode and nq >= 2:
+                # the same placeholder buffer OBJECT handed in again with other index arrays is another batch
+                buf = np.zeros((nq, 1))
+                first = o.predict(buf, I_val=np.array(Iq))
+                rev = list(reversed(Iq))
+                second = o.predict(buf, I_val=np.array(rev))
+                if list(first) != list(preds) or list(second) != [preds[nq - 1 - t] for t in range(nq)]:
+                    msgs9.append(f"the same array object passed twice with different index arrays: {list(first)} then {list(second)}, "
+                                 f"fresh arrays give {list(preds)} and its reverse")
+                res.hit("c09_same_buffer_other_indexes")
+            if feature_mode and nq >= 1 and not semi:
+                # a plain list of rows edited between two calls is new data
+                rows_l = [list(map(float, r_)) for r_ in Q]
+                try:
+                    p_a = o.predict(rows_l)
+                    rows_l[0] = list(map(float, X[0]))
+                    p_b = o.predict(rows_l)
+                    p_c = o.predict(np.array(rows_l))
+                    if list(p_b) != list(p_c):
+                        msgs9.append(f"a list of rows edited between two predict calls gives {list(p_b)}, a fresh array with the same rows {list(p_c)}")
+                    res.hit("c09_edited_list")
+                except Exception:
+                    pass
             viol("C09", msgs9, {"stream": "fit", "labels": lab, "Iq": Iq, "M": M.tolist(), "I": I})
             after = (forest_obs(o.subgraph, n), )
             if after[0] != fobs:
